@@ -60,6 +60,11 @@ def header_layouts():
         ms = [Ref(n, "H_" + n) if i == pos else mem(n) for i, n in enumerate(REQ)]
         yield "ref:%s" % REQ[pos], ms, pub
     yield "ref:all", [Ref(n, "H_" + n) for n in REQ], pub
+    # 5b. ref-typed optional counters (each alone, both, and every member a ref)
+    cpub = pub + [T("H_numGroups", "uint8"), T("H_numVarDataFields", "uint16")]
+    for sub in (["numGroups"], ["numVarDataFields"], ["numGroups", "numVarDataFields"]):
+        yield "ref-counters:" + "+".join(sub), [mem(n) for n in REQ] + [Ref(n, "H_" + n) for n in sub], cpub
+    yield "ref:all+counters", [Ref(n, "H_" + n) for n in REQ + ["numVarDataFields", "numGroups"]], cpub
     # 6. member types
     for pos in range(4):
         for t in UT:
@@ -98,6 +103,10 @@ def dim_layouts():
     pub = [T("D_blockLength", "uint16"), T("D_numInGroup", "uint32")]
     yield "ref:blockLength", [Ref("blockLength", "D_blockLength"), mem("numInGroup", "uint16")], pub
     yield "ref:all", [Ref("blockLength", "D_blockLength"), Ref("numInGroup", "D_numInGroup")], pub
+    cpub = pub + [T("D_numGroups", "uint16"), T("D_numVarDataFields", "uint8")]
+    for sub in (["numGroups"], ["numVarDataFields"], ["numGroups", "numVarDataFields"]):
+        yield "ref-counters:" + "+".join(sub), [mem("blockLength", "uint16"), mem("numInGroup", "uint16")] + [Ref(n, "D_" + n) for n in sub], cpub
+    yield "ref:all+counters", [Ref(n, "D_" + n) for n in ("numGroups", "blockLength", "numVarDataFields", "numInGroup")], cpub
 
 
 def dim_schemas(byte_order="littleEndian", with_ref_num=True):
@@ -107,7 +116,7 @@ def dim_schemas(byte_order="littleEndian", with_ref_num=True):
     seen_pub = set()
     k = 0
     for desc, members, pub in dim_layouts():
-        if not with_ref_num and desc == "ref:all":
+        if not with_ref_num and desc in ("ref:all", "ref:all+counters"):
             continue
         for p in pub:
             if p.name not in seen_pub:
